@@ -334,6 +334,13 @@ func (f *Future[T]) Wait() T {
 func (f *Future[T]) WaitContext(ctx context.Context) (T, error) {
 	select {
 	case <-ctx.Done():
+		// Both f.c and ctx.Done() may be ready, in which case select picks at random: a future
+		// that is already filled delivers its value.
+		select {
+		case <-f.c:
+			return f.x, nil
+		default:
+		}
 		var zero T
 		return zero, ctx.Err()
 	case <-f.c:
